@@ -108,6 +108,7 @@ class Scenario:
         self.bspec = {}
         self.symbols = {}
         self.gaps = {}  # bid -> (src, length) gap bytes before the block
+        self.uninit = {}  # section name -> length of the uninitialised tail
         self.patch_log = []  # (mod index, assembled bytes) in invocation order
         self.mod_patches = {}
         self._build()
@@ -233,6 +234,12 @@ class Scenario:
             else:
                 bi.contents = contents
                 bi.size = off
+            if ss.get("uninit_tail"):
+                # zero-fill bytes behind the stored contents (size > len(contents)): part of the section, not of the listing
+                ulen = e.int("uninit_" + ss["name"], 1, None)
+                self.uninit[ss["name"]] = ulen
+                bi.size = off + ulen
+                off = off + ulen
             addr = addr + off + growth + e.int("secgap%d" % si, 4096, None)
         if spec.get("alignment_table") and align_tbl is None:
             _auxdata.alignment.get_or_insert(m)
